@@ -28,13 +28,13 @@ ARGVS = {
     'three8bit': [H.hx(b'a'), H.hx(b'b c'), H.hx(b'\x01\xff')], 'n3000': [(3000, H.hx(b'ab'))],
     'mib': [H.hx(b'x'), H.rep('m', 1 << 20)],
 }
-ENVPS = {'NULL': None, 'empty': [], 'one': [H.hx(b'A=1')], 'n2000': [(2000, H.hx(b'K=v'))]}
-ENVIRONS = {'keep': 'env set ' + H.vec([H.hx(b'PATH=/bin'), H.hx(b'LOGNAME=me')]),
+ENVPS = {'NULL': None, 'empty': [], 'one': [H.hx(b'A=1')], 'nl': [H.hx(b'A=x\ny'), H.hx(b'NL=l1\nl2'), H.hx(b'NOEQ')], 'n2000': [(2000, H.hx(b'K=v'))]}
+ENVIRONS = {'keep': 'env set ' + H.vec([H.hx(b'PATH=/bin'), H.hx(b'LOGNAME=me\nsecond line'), H.hx(b'NL=() {  echo first\n echo second\r\n}'), H.hx(b'SUDO_USER=su\rx')]),
             'null': 'env null', 'big': 'env set ' + H.vec([(500, H.hx(b'V=' + b'y' * 50))])}
 
 
 def configs(w):
-    fmt_all = b'%{filename}|%{cmdline}|%{env_all}|%{uid}|%{tty}|%{cwd}|%{login}|%{env:A}'
+    fmt_all = b'%{filename}|%{cmdline}|%{env_all}|%{uid}|%{tty}|%{cwd}|%{login}|%{env:A}|%{env:NL}|%{env:LOGNAME}'
     c = {
         'absent': None,
         'empty': b'',
@@ -93,7 +93,7 @@ def cases_for(tier):
 
 
 # builds without configuration file: format, chain and default output are compiled in (variables of native/seam.c, set per process)
-FMT_ALL_CI = b'%{filename}|%{cmdline}|%{env_all}|%{uid}|%{tty}|%{cwd}|%{login}|%{env:A}'
+FMT_ALL_CI = b'%{filename}|%{cmdline}|%{env_all}|%{uid}|%{tty}|%{cwd}|%{login}|%{env:A}|%{env:NL}|%{env:LOGNAME}'
 COMPILED_IN = {
     'compiled_in:devlog': [],
     'compiled_in:file': ['defformat ' + H.hx(FMT_ALL_CI), 'defoutput ' + H.hx(b'file'), 'defoutarg h@W@' + H.hx(b'/log')[1:]],
